@@ -28,6 +28,7 @@ import (
 	"github.com/IrineSistiana/mosdns/v5/coremain"
 	"github.com/IrineSistiana/mosdns/v5/pkg/pool"
 	"github.com/IrineSistiana/mosdns/v5/pkg/query_context"
+	"github.com/IrineSistiana/mosdns/v5/pkg/verifhook"
 	"github.com/IrineSistiana/mosdns/v5/plugin/executable/sequence"
 	"github.com/miekg/dns"
 	"go.uber.org/zap"
@@ -126,9 +127,11 @@ func (f *fallback) doFallback(ctx context.Context, qCtx *query_context.Context) 
 		r := qCtx.R()
 		if err != nil || r == nil {
 			close(primFailed)
+			verifhook.PointArg("fallback.primary.signalled", qCtxP)
 			respChan <- nil
 		} else {
 			close(primDone)
+			verifhook.PointArg("fallback.primary.signalled", qCtxP)
 			respChan <- r
 		}
 	}()
@@ -158,6 +161,7 @@ func (f *fallback) doFallback(ctx context.Context, qCtx *query_context.Context) 
 		}
 
 		r := qCtx.R()
+		verifhook.PointArg("fallback.secondary.finished", qCtxS)
 		// always standby is enabled. Wait until secondary resp is needed.
 		if f.alwaysStandby && r != nil {
 			select {
@@ -167,6 +171,7 @@ func (f *fallback) doFallback(ctx context.Context, qCtx *query_context.Context) 
 			case <-timer.C: // or timed out.
 			}
 		}
+		verifhook.PointArg("fallback.secondary.releasing", qCtxS)
 		respChan <- r
 	}()
 
